@@ -24,6 +24,8 @@ def run(tier, v, wd, replay=None):
                 out.write(f.read())
     repo = vlib.scratch_repo(wd, "real")
     run_vectors(v, wd, repo, "./control/", "TestVerifC10", infile, timeout=3000)
+    # once more with answers that repeat an address so that a refreshed answer keeps the record count of the previous one
+    run_vectors(v, wd, repo, "./control/", "TestVerifC10", infile, env={"VERIF_C10_PAD": "prev"}, timeout=3000, outname="out-pad.json")
     # a full kernel table: failed syncs and retries (Cap = 2)
     r = vlib.tlc(wd, "DomainTracker", "DomainTracker_cap.cfg", timeout=1500)
     v.add_tlc(r)
